@@ -99,6 +99,20 @@ pub fn cache_capacity(cfg: &Cfg) -> usize {
     }
 }
 
+/// Base of the per-level size limits for a case (guarded hook `verif::set_level_base_bytes`; level 1
+/// may hold 10x the base, each deeper level 10x more). The built-in 1 MiB makes levels >= 3
+/// unreachable with generated amounts of data; with a base of 30 or 300 bytes, size compactions
+/// cascade into levels 3-5 within a hundred operations. A tuning constant, like the ones varied in
+/// benign/: every property must hold for any value. 0 = built-in. A pure function of the case's
+/// initial configuration, constant for the whole case.
+pub fn level_base_for(cfg: &Cfg) -> u64 {
+    match (cfg.memtable / 100 + cfg.file as usize / 100 + cfg.block / 16) % 10 {
+        0..=3 => 0,
+        4..=6 => 300,
+        _ => 30,
+    }
+}
+
 /// Bloom bits per key of a configuration (1, 10 or 24): re-drawn with the configuration at every
 /// reopen, so tables written under one setting are read by a policy instance with another.
 pub fn bloom_bits(cfg: &Cfg) -> usize {
@@ -155,6 +169,7 @@ type R<T> = Result<T, Failure>;
 
 impl<'a> Interp<'a> {
     pub fn new(case: &'a Case, o: Oracles) -> Self {
+        raindb::verif::set_level_base_bytes(level_base_for(&case.cfg));
         Interp {
             case,
             fs: Arc::new(MemFs::new(false)),
@@ -1063,6 +1078,18 @@ impl<'a> Interp<'a> {
         }
         if levels.len() >= 3 {
             self.stats.bump("three_or_more_levels");
+        }
+        if levels.iter().any(|l| *l >= 3) {
+            self.stats.bump("has_file_at_level_ge_3");
+        }
+        if levels.iter().any(|l| *l >= 4) {
+            self.stats.bump("has_file_at_level_ge_4");
+        }
+        if levels.iter().any(|l| *l >= 5) {
+            self.stats.bump("has_file_at_level_ge_5");
+        }
+        if (1..7).any(|l| layout.iter().filter(|f| f.level == l).count() >= 4) {
+            self.stats.bump("four_or_more_files_in_a_level_ge_1");
         }
         if layout.len() >= 5 {
             self.stats.bump("five_or_more_tables");
